@@ -196,7 +196,12 @@ def _maxpool(module, grad_input, grad_output):
 	unpool_delta = torch.cat([unpool_delta_, unpool_delta_])
 	idxs = torch.abs(delta_in) < 1e-7
 
-	new_grad_inp = torch.where(idxs, grad_input[0], unpool_delta / delta_in)
+	# Where the input equals the reference the ordinary gradient is used; take
+	# the example's for both halves so that the example and reference halves
+	# keep carrying identical multipliers for the layers further down.
+	grad_x = grad_input[0].chunk(2)[0]
+	new_grad_inp = torch.where(idxs, torch.cat([grad_x, grad_x]), 
+		unpool_delta / delta_in)
 	return (new_grad_inp,)
 
 
